@@ -2,13 +2,13 @@
 
    1. group3 / group_loop_group3   the grouping loop puts the separator exactly in front of every
                                    complete group of three counted from the right (all digit lists)
-   2. format_number_structure      the decision table of format_number for an arbitrary number algebra
-   3. spec_print / format_consistent   when the two roundings agree the output is the specified one
-   4. sign                         '-' exactly for values below zero
-   5. wrappers                     percent, money (symbol, placement, digits), unit quantities
-   6. binary64 facts               witnesses of the double rounding, families of correct prints,
-                                   termination of fract_information on a checked family
-   7. fixed_exact (Spec/Fixed.v)   "{:.N}" of a binary64 is the half-even rounding of its exact value *)
+   2. spec_print / format_correct  format_number IS the specified print: every value, separator
+                                   string, digit count and flag setting, any number algebra
+   3. sign                         '-' exactly for values below zero
+   4. wrappers                     percent, money (symbol, placement, digits), unit quantities
+   5. binary64 facts               the former witnesses of the double rounding (repaired in 9ef4dcc)
+                                   now print as specified; families of prints; currency table
+   6. fixed_exact (Spec/Fixed.v)   "{:.N}" of a binary64 is the half-even rounding of its exact value *)
 From SC.Model Require Import Base Num NumF64 FloatIO Types Config Case Chrono Parser Format Run64.
 From SC.Spec Require Import Fixed.
 From SC.Gen Require Import ConfigData.
@@ -163,54 +163,32 @@ Proof.
 Qed.
 
 (* ------------------------------------------------------------------------------------- *)
-(* 2. the structure of format_number                                                      *)
+(* 2. format_number is the specified print                                                *)
 (* ------------------------------------------------------------------------------------- *)
+Lemma find_dot_int_part st :
+  match find_index (N.eqb 46) st with Some i => i | None => length st end = length (int_part st).
+Proof.
+  induction st as [|c r IH]; cbn [find_index int_part length]; [reflexivity|].
+  rewrite (N.eqb_sym 46 c). destruct (N.eqb c 46); cbn [length]; [reflexivity|].
+  destruct (find_index (N.eqb 46) r); cbn [option_map]; rewrite IH; reflexivity.
+Qed.
+
+Lemma forallb_zero st : forallb (N.eqb 48) st = all_zero st.
+Proof.
+  unfold all_zero. induction st as [|c r IH]; cbn [forallb]; [reflexivity|].
+  rewrite (N.eqb_sym 48 c), IH. reflexivity.
+Qed.
+
 Section WithNum.
 Context {F : Type} {NF : Num F}.
 
-(* the three ingredients *)
-Definition fmt_copy (x : F) (digits : N) : F :=
-  do_division (fround (fmul x (powi10 digits))) (powi10 digits).           (* the separately rounded copy *)
-Definition fmt_trunc_part (x : F) (digits : N) : str := fdisplay (fabs (ftrunc (fmt_copy x digits))).
-Definition fmt_fract (x : F) (digits : N) : option Z := fract_information (ffract (fmt_copy x digits)).
-Definition fmt_string (x : F) (digits : N) (rnd : bool) : str :=             (* supplies every printed digit *)
+(* the rendering of the magnitude: it supplies every printed digit, the length of the integer
+   part and the zero-fraction test *)
+Definition fmt_string (x : F) (digits : N) (rnd : bool) : str :=
   if rnd then ffixed (fabs x) digits else fdisplay (fabs x).
 
 Definition sign_str (x : F) : str := if fltb x f0 then [45%N] else [].
 
-Theorem format_number_structure : forall (x : F) (tsep dsep : str) (digits : N) (rm rnd : bool),
-  format_number x tsep dsep digits rm rnd =
-  match fmt_fract x digits with
-  | None => Panic SITE_FI_FUEL
-  | Some fp =>
-    let ts := length (fmt_trunc_part x digits) in
-    let st := fmt_string x digits rnd in
-    if Nat.ltb (length st) ts then Panic SITE_NTH_UNWRAP
-    else Ok (sign_str x ++ group3 tsep (firstn ts st) ++
-             (if ((0 <? fp) || negb rm) && negb (Nat.eqb ts (length st))
-              then dsep ++ skipn (S ts) st else []))
-  end.
-Proof.
-  intros. unfold format_number, fmt_fract, fmt_trunc_part, fmt_string, fmt_copy, sign_str.
-  set (copy := do_division _ _).
-  set (st := if rnd then _ else _).
-  set (ts := length (fdisplay (fabs (ftrunc copy)))).
-  destruct (fract_information (ffract copy)) as [fp|]; [|reflexivity].
-  cbv zeta.
-  destruct (Nat.ltb (length st) ts) eqn:Hlt; [reflexivity|].
-  apply Nat.ltb_ge in Hlt.
-  assert (Hg : group_loop (firstn ts st) 0 ts (3 - Nat.modulo ts 3) tsep = group3 tsep (firstn ts st)).
-  { pose proof (group_loop_group3 (firstn ts st) tsep) as G.
-    rewrite firstn_length_le in G by exact Hlt. exact G. }
-  rewrite Hg.
-  destruct (((0 <? fp) || negb rm) && negb (Nat.eqb ts (length st))).
-  - rewrite <- app_assoc. reflexivity.
-  - rewrite app_nil_r. reflexivity.
-Qed.
-
-(* ------------------------------------------------------------------------------------- *)
-(* 3. the specified print and the consistency of the two roundings                        *)
-(* ------------------------------------------------------------------------------------- *)
 (* [st] is the decimal rendering of |x| (correctly rounded "{:.N}", or the shortest "{}" when
    rounding is switched off) *)
 Definition show_fraction (rm : bool) (st : str) : bool :=
@@ -220,106 +198,56 @@ Definition spec_print (neg : bool) (tsep dsep : str) (rm : bool) (st : str) : st
   (if neg then [45%N] else []) ++ group3 tsep (int_part st)
     ++ (if show_fraction rm st then dsep ++ frac_part st else []).
 
-(* the separately rounded copy agrees with the string on the length of the integer part ... *)
-Definition len_agree (x : F) (digits : N) (rnd : bool) : bool :=
-  Nat.eqb (length (fmt_trunc_part x digits)) (length (int_part (fmt_string x digits rnd))).
-(* ... and on whether the fraction is zero *)
-Definition frac_agree (x : F) (digits : N) (rnd : bool) : bool :=
-  match fmt_fract x digits with
-  | None => false
-  | Some fp => Bool.eqb (0 <? fp) (negb (all_zero (frac_part (fmt_string x digits rnd))))
-  end.
-
-Definition Inconsistent (x : F) (digits : N) (rnd : bool) : Prop :=
-  len_agree x digits rnd = false \/ frac_agree x digits rnd = false.
-
-Lemma Inconsistent_dec x digits rnd : {Inconsistent x digits rnd} + {~ Inconsistent x digits rnd}.
-Proof.
-  unfold Inconsistent.
-  destruct (len_agree x digits rnd); [|left; left; reflexivity].
-  destruct (frac_agree x digits rnd); [|left; right; reflexivity].
-  right. intros [H|H]; discriminate.
-Qed.
-
-Lemma format_len_agree : forall x tsep dsep digits rm rnd fp,
-  len_agree x digits rnd = true -> fmt_fract x digits = Some fp ->
-  format_number x tsep dsep digits rm rnd =
-  Ok (sign_str x ++ group3 tsep (int_part (fmt_string x digits rnd)) ++
-      (if ((0 <? fp) || negb rm) && has_dot (fmt_string x digits rnd)
-       then dsep ++ frac_part (fmt_string x digits rnd) else [])).
-Proof.
-  intros x tsep dsep digits rm rnd fp HL HF.
-  rewrite format_number_structure, HF. cbv zeta.
-  unfold len_agree in HL. apply Nat.eqb_eq in HL. rewrite HL.
-  set (st := fmt_string x digits rnd).
-  pose proof (int_part_length_le st) as Hle.
-  destruct (Nat.ltb (length st) (length (int_part st))) eqn:E.
-  { apply Nat.ltb_lt in E. lia. }
-  rewrite firstn_int_part, skipn_int_part, int_part_full_iff, negb_involutive. reflexivity.
-Qed.
-
-(* the main theorem: outside the class the print is the specified one *)
-Theorem format_consistent : forall x tsep dsep digits rm rnd,
-  ~ Inconsistent x digits rnd ->
+(* the main theorem, unconditional: never a panic, always the specified print *)
+Theorem format_correct : forall (x : F) (tsep dsep : str) (digits : N) (rm rnd : bool),
   format_number x tsep dsep digits rm rnd
   = Ok (spec_print (fltb x f0) tsep dsep rm (fmt_string x digits rnd)).
 Proof.
-  intros x tsep dsep digits rm rnd H.
-  unfold Inconsistent in H.
-  destruct (len_agree x digits rnd) eqn:HL; [|exfalso; apply H; left; reflexivity].
-  destruct (frac_agree x digits rnd) eqn:HF; [|exfalso; apply H; right; reflexivity].
-  unfold frac_agree in HF. destruct (fmt_fract x digits) as [fp|] eqn:HFP; [|discriminate].
-  rewrite (format_len_agree _ _ _ _ _ _ fp HL HFP).
-  unfold spec_print, sign_str, show_fraction.
-  apply eqb_prop in HF. rewrite HF.
-  set (st := fmt_string x digits rnd).
+  intros. unfold format_number, spec_print, show_fraction, fmt_string.
+  set (st := if rnd then _ else _).
+  cbv zeta. rewrite (find_dot_int_part st).
+  rewrite firstn_int_part, skipn_int_part, int_part_full_iff, negb_involutive, forallb_zero.
+  pose proof (group_loop_group3 (int_part st) tsep) as G. rewrite G.
   replace ((negb (all_zero (frac_part st)) || negb rm) && has_dot st)
-    with (has_dot st && (negb rm || negb (all_zero (frac_part st)))).
-  - reflexivity.
-  - destruct (has_dot st), rm, (all_zero (frac_part st)); reflexivity.
+    with (has_dot st && (negb rm || negb (all_zero (frac_part st))))
+    by (destruct (has_dot st), rm, (all_zero (frac_part st)); reflexivity).
+  destruct (has_dot st && (negb rm || negb (all_zero (frac_part st)))).
+  - rewrite <- app_assoc. reflexivity.
+  - rewrite app_nil_r. reflexivity.
 Qed.
 
-(* when zero fractions are kept only the length of the integer part matters *)
-Theorem format_keep_fraction : forall x tsep dsep digits rnd,
-  len_agree x digits rnd = true -> fmt_fract x digits <> None ->
-  format_number x tsep dsep digits false rnd
-  = Ok (spec_print (fltb x f0) tsep dsep false (fmt_string x digits rnd)).
-Proof.
-  intros x tsep dsep digits rnd HL HF.
-  destruct (fmt_fract x digits) as [fp|] eqn:HFP; [|contradiction].
-  rewrite (format_len_agree _ _ _ _ _ _ fp HL HFP).
-  unfold spec_print, sign_str, show_fraction. cbn [negb orb]. rewrite orb_true_r, andb_true_r. reflexivity.
-Qed.
+(* the printed text read back: removing the sign gives the grouped integer part followed, when
+   shown, by the decimal separator and exactly the digits behind the '.' of the rendering *)
+Corollary format_never_panics : forall (x : F) tsep dsep digits rm rnd,
+  is_ok (format_number x tsep dsep digits rm rnd) = true.
+Proof. intros. rewrite format_correct. reflexivity. Qed.
 
 (* ------------------------------------------------------------------------------------- *)
-(* 4. sign                                                                                *)
+(* 3. sign                                                                                *)
 (* ------------------------------------------------------------------------------------- *)
 Definition starts_minus (x : str) : bool := match x with c :: _ => N.eqb c 45 | [] => false end.
 
 (* the print starts with '-' exactly for values below zero, provided the rendering of the
-   magnitude does not itself start with '-' (checked for binary64 in magnitude_unsigned) and
-   the integer part is not empty *)
+   magnitude does not itself start with '-' and has a non-empty integer part (checked for
+   binary64 in magnitude_unsigned) *)
 Theorem format_sign : forall x tsep dsep digits rm rnd out,
   format_number x tsep dsep digits rm rnd = Ok out ->
   starts_minus (fmt_string x digits rnd) = false ->
-  fmt_trunc_part x digits <> [] ->
+  int_part (fmt_string x digits rnd) <> [] ->
   starts_minus out = fltb x f0.
 Proof.
   intros x tsep dsep digits rm rnd out H Hs Hne.
-  rewrite format_number_structure in H.
-  destruct (fmt_fract x digits) as [fp|]; [|discriminate].
-  cbv zeta in H.
-  destruct (Nat.ltb _ _) eqn:Hlt; [discriminate|]. apply Nat.ltb_ge in Hlt.
-  injection H as <-.
-  unfold sign_str. destruct (fltb x f0); [reflexivity|].
+  rewrite format_correct in H. injection H as <-.
+  unfold spec_print. destruct (fltb x f0); [reflexivity|].
   cbn [app].
-  destruct (fmt_trunc_part x digits) as [|t0 tr]; [contradiction|].
-  destruct (fmt_string x digits rnd) as [|c0 r0]; [cbn in Hlt; lia|].
-  cbn [length firstn group3 app starts_minus]. exact Hs.
+  destruct (fmt_string x digits rnd) as [|c0 r0]; [contradiction Hne; reflexivity|].
+  cbn [int_part] in *. cbn [starts_minus] in Hs.
+  destruct (N.eqb c0 46); [contradiction Hne; reflexivity|].
+  cbn [group3 app starts_minus]. exact Hs.
 Qed.
 
 (* ------------------------------------------------------------------------------------- *)
-(* 5. wrappers                                                                            *)
+(* 4. wrappers                                                                            *)
 (* ------------------------------------------------------------------------------------- *)
 Definition map_res {A B} (f : A -> B) (r : res A) : res B :=
   match r with Ok a => Ok (f a) | Panic s => Panic s end.
@@ -371,7 +299,7 @@ Qed.
 End WithNum.
 
 (* ------------------------------------------------------------------------------------- *)
-(* 6. binary64 facts (the executed instance; vm_compute on primitive floats)              *)
+(* 5. binary64 facts (the executed instance; vm_compute on primitive floats)              *)
 (* ------------------------------------------------------------------------------------- *)
 (* the binary64 nearest to a decimal literal, as [NUMBER:x] injects it *)
 Definition v (x : string) : float := match f64_parse (s x) with Some f => f | None => nan end.
@@ -379,39 +307,31 @@ Definition v (x : string) : float := match f64_parse (s x) with Some f => f | No
 (* separators as in the default configuration: '.' thousands, ',' decimal *)
 Definition fmt64 (x : string) (n : N) (rm rnd : bool) : res str :=
   format_number (v x) (s ".") (s ",") n rm rnd.
-Definition spec64 (x : string) (n : N) (rm rnd : bool) : str :=
-  spec_print (PrimFloat.ltb (v x) 0) (s ".") (s ",") rm (fmt_string (v x) n rnd).
 
-(* the known finding: the two roundings disagree and the print is wrong *)
-Theorem inconsistent_refuted :
-  (* 0.995 = 0.99499999999999999556 in binary64: "{:.2}" is 0.99, the copy round(99.5)/100 is 1 *)
-  (Inconsistent (v "0.995") 2 true /\ fmt64 "0.995" 2 true true = Ok (s "0") /\ spec64 "0.995" 2 true true = s "0,99") /\
-  (Inconsistent (v "-0.995") 2 true /\ fmt64 "-0.995" 2 true true = Ok (s "-0") /\ spec64 "-0.995" 2 true true = s "-0,99") /\
-  (* 999999.995 = 999999.99499999999534: the copy has one integer digit more than the string *)
-  (Inconsistent (v "999999.995") 2 true /\ fmt64 "999999.995" 2 true true = Ok (s "9.999.99.")
-     /\ spec64 "999999.995" 2 true true = s "999.999,99") /\
-  (* 10^21: the copy round(1e23)/100 displays with 21 digits, the value has 22 *)
-  (Inconsistent (v "1e21") 2 true /\ fmt64 "1e21" 2 true true = Ok (s "100.000.000.000.000.000.000")
-     /\ spec64 "1e21" 2 true true = s "1.000.000.000.000.000.000.000") /\
-  (* rounding switched off: the digits are the shortest rendering, the copy is still rounded *)
-  (Inconsistent (v "99.995") 2 false /\ fmt64 "99.995" 2 false false = Ok (s "99.,95") /\ spec64 "99.995" 2 false false = s "99,995") /\
-  (Inconsistent (v "999.995") 2 false /\ fmt64 "999.995" 2 false false = Ok (s "9.99.,95")
-     /\ spec64 "999.995" 2 false false = s "999,995") /\
-  (Inconsistent (v "5.001") 2 false /\ fmt64 "5.001" 2 true false = Ok (s "5") /\ spec64 "5.001" 2 true false = s "5,001").
-Proof.
-  repeat split; try (vm_compute; reflexivity);
-    first [ left; vm_compute; reflexivity | right; vm_compute; reflexivity ].
-Qed.
+(* the former witnesses of the double rounding (known finding C07-double-rounding, repaired in
+   /repo 9ef4dcc): 0.995 is 0.99499999999999999556 in binary64 and prints 0,99 (it printed 0);
+   999999.995 is 999999.99499999999534 (it printed 9.999.99.); 10^21 has its 22 digits (it lost
+   one); with rounding off the shortest rendering is printed whole (99.995 printed 99.,95 and
+   5.001 printed 5) *)
+Theorem former_witnesses :
+  fmt64 "0.995" 2 true true = Ok (s "0,99") /\
+  fmt64 "-0.995" 2 true true = Ok (s "-0,99") /\
+  fmt64 "999999.995" 2 true true = Ok (s "999.999,99") /\
+  fmt64 "1e21" 2 true true = Ok (s "1.000.000.000.000.000.000.000") /\
+  fmt64 "1e21" 2 false true = Ok (s "1.000.000.000.000.000.000.000,00") /\
+  fmt64 "99.995" 2 false false = Ok (s "99,995") /\
+  fmt64 "999.995" 2 false false = Ok (s "999,995") /\
+  fmt64 "5.001" 2 true false = Ok (s "5,001") /\
+  fmt64 "1.0005" 3 true true = Ok (s "1") /\
+  fmt64 "1.7976931348623157e308" 0 true true
+    = Ok (s ("179.769.313.486.231.570.814.527.423.731.704.356.798.070.567.525.844.996.598.917.476.803.157.260.780.028.538.760."
+             ++ "589.558.632.766.878.171.540.458.953.514.382.464.234.321.326.889.464.182.768.467.546.703.537.516.986.049.910.576."
+             ++ "551.282.076.245.490.090.389.328.944.075.868.508.455.133.942.304.583.236.903.222.948.165.808.559.332.123.348.274."
+             ++ "797.826.204.144.723.168.738.177.180.919.299.881.250.404.026.184.124.858.368")).
+Proof. vm_compute. repeat split; reflexivity. Qed.
 
-(* non-vacuity: consistent inputs, with the print one expects (default separators) *)
-Definition consistentb (x : float) (n : N) (rnd : bool) : bool := len_agree x n rnd && frac_agree x n rnd.
-
-Lemma consistentb_true x n rnd : consistentb x n rnd = true -> ~ Inconsistent x n rnd.
-Proof.
-  unfold consistentb, Inconsistent. intro H. apply andb_true_iff in H as [A B].
-  rewrite A, B. intros [C|C]; discriminate.
-Qed.
-
+(* a family of prints (default separators): ties, values below one unit of the last digit,
+   negative zero, 10^15, the smallest subnormal, 21 integer digits *)
 Definition good_rows : list (string * N * bool * bool * string) :=
   [ ("1234567.891", 2, true, true, "1.234.567,89"); ("-1234567.891", 0, true, true, "-1.234.568");
     ("1234567.891", 2, true, false, "1.234.567,891");
@@ -425,67 +345,39 @@ Definition good_rows : list (string * N * bool * bool * string) :=
     ("123456789.123456789", 9, true, true, "123.456.789,123456791");
     ("0.1", 9, true, true, "0,100000000"); ("100", 0, false, false, "100");
     ("1e15", 3, false, true, "1.000.000.000.000.000,000"); ("4.9e-324", 2, true, true, "0");
-    ("123456789012345680000", 2, true, true, "123.456.789.012.345.683.968") ]%string%N.
+    ("123456789012345680000", 2, true, true, "123.456.789.012.345.683.968");
+    ("1e14", 9, false, true, "100.000.000.000.000,000000000"); ("1e20", 3, true, true, "100.000.000.000.000.000.000");
+    ("0.0001", 3, true, false, "0,0001"); ("0.0001", 3, true, true, "0") ]%string%N.
 
 Definition good_row_ok (r : string * N * bool * bool * string) : bool :=
   let '(x, n, rm, rnd, out) := r in
-  consistentb (v x) n rnd &&
-  match fmt64 x n rm rnd with Ok o => str_eqb o (s out) | Panic _ => false end &&
-  str_eqb (spec64 x n rm rnd) (s out).
+  match fmt64 x n rm rnd with Ok o => str_eqb o (s out) | Panic _ => false end.
 
 Theorem good_rows_ok : forall r, In r good_rows -> good_row_ok r = true.
 Proof. apply forallb_forall. vm_compute. reflexivity. Qed.
 
-(* a grid: k/8 for |k| <= 100 (every tie of the last digit at 0, 1 and 2 digits is among them: the
-   string rounds it to even, the copy away from zero, and still they agree on what format_number
-   takes from the copy), digits 0..9; and the powers of ten 10^e, digits n, as long as
-   10^(e+n) is a binary64 (e + n <= 22) in both rounding settings.  Beyond, e.g. 10^21 at 2
-   digits, the copy is off (see inconsistent_refuted). *)
-Definition eighth (k : Z) : float := PrimFloat.div (f64_of_Z k) (f64_of_Z 8).
-Definition zrange (lo n : nat) : list Z := map (fun i => Z.of_nat i - Z.of_nat lo) (seq 0 n).
 Definition digit_range : list N := map N.of_nat (seq 0 10).
 
-Definition grid_ok : bool :=
-  forallb (fun k => forallb (fun n => consistentb (eighth k) n true) digit_range) (zrange 100 201)
-  && forallb (fun e => forallb (fun n =>
-                (22 <? e + Z.of_N n) || (consistentb (f64_of_Z (10 ^ e)) n true && consistentb (f64_of_Z (10 ^ e)) n false))
-                digit_range) (map Z.of_nat (seq 0 23)).
-
-Theorem grid_consistent : grid_ok = true.
-Proof. vm_compute. reflexivity. Qed.
-
-(* the sign on the executed instance: the rendering of a magnitude never starts with '-' *)
+(* the sign on the executed instance: the rendering of a magnitude never starts with '-' and its
+   integer part is not empty (the side conditions of format_sign) *)
 Definition sign_family : list float :=
   map v ["0"; "-0"; "0.004"; "-0.004"; "-0.995"; "-1"; "-1e21"; "1e21"; "-4.9e-324"; "-123456.789"; "17"]%string.
 
 Theorem magnitude_unsigned : forall x n, In x sign_family -> In n digit_range ->
   starts_minus (fmt_string x n true) = false /\ starts_minus (fmt_string x n false) = false /\
-  fmt_trunc_part x n <> [].
+  int_part (fmt_string x n true) <> [] /\ int_part (fmt_string x n false) <> [].
 Proof.
   assert (H : forallb (fun x => forallb (fun n =>
               negb (starts_minus (fmt_string x n true)) && negb (starts_minus (fmt_string x n false)) &&
-              negb (Nat.eqb (length (fmt_trunc_part x n)) 0)) digit_range) sign_family = true)
+              negb (Nat.eqb (length (int_part (fmt_string x n true))) 0) &&
+              negb (Nat.eqb (length (int_part (fmt_string x n false))) 0)) digit_range) sign_family = true)
     by (vm_compute; reflexivity).
   intros x n Hx Hn. rewrite forallb_forall in H. specialize (H x Hx). rewrite forallb_forall in H.
-  specialize (H n Hn). apply andb_true_iff in H as [H H3]. apply andb_true_iff in H as [H1 H2].
-  apply negb_true_iff in H1, H2, H3. repeat split; try assumption.
-  intro E. rewrite E in H3. discriminate.
-Qed.
-
-(* fract_information: both loops end well inside the model's fuel on binary64 (checked family:
-   the smallest subnormal needs 320 rounds of the first loop).  format_number only passes the
-   fraction of a finite value (do_division turns a non-finite quotient into 0). *)
-Definition fi_family : list float :=
-  map v ["4.9e-324"; "1e-300"; "1e-5"; "0.0001"; "0.00011"; "0.1"; "0.3333333333333333"; "0.5"; "0.9999";
-         "0.99995"; "0.999999999999"; "0.1234567"; "0.987"; "0.995"; "0.005"; "0.045"; "0"; "1e300"]%string.
-
-Theorem fract_information_terminates : forall x, In x fi_family ->
-  exists z, fract_information x = Some z /\ 0 <= z.
-Proof.
-  assert (H : forallb (fun x => match fract_information x with Some z => 0 <=? z | None => false end) fi_family = true)
-    by (vm_compute; reflexivity).
-  intros x Hx. rewrite forallb_forall in H. specialize (H x Hx).
-  destruct (fract_information x) as [z|]; [|discriminate]. exists z. split; [reflexivity|]. apply Z.leb_le. exact H.
+  specialize (H n Hn). apply andb_true_iff in H as [H H4]. apply andb_true_iff in H as [H H3].
+  apply andb_true_iff in H as [H1 H2].
+  apply negb_true_iff in H1, H2, H3, H4. repeat split; try assumption.
+  - intro E. rewrite E in H3. discriminate.
+  - intro E. rewrite E in H4. discriminate.
 Qed.
 
 (* money: every configured currency is found by its code and prints the amount with its own
@@ -499,7 +391,7 @@ Definition money_row_ok (x : float) (kv : str * currency) : bool :=
   let cfg := default_config in
   match currency_by_code cfg (c_code c), item_print cfg (s "en") 2026 (IMoney x (c_code c)) with
   | Some c', Ok out =>
-    currency_eqb c' c && consistentb x (c_digits c) (nc_round (cf_money cfg)) &&
+    currency_eqb c' c &&
     str_eqb out (money_place c (spec_print (PrimFloat.ltb x 0) (cf_tsep cfg) (cf_dsep cfg) (nc_rm (cf_money cfg))
                                            (f64_to_fixed (PrimFloat.abs x) (c_digits c))))
   | _, _ => false
@@ -544,7 +436,7 @@ Theorem wrappers_examples :
 Proof. vm_compute. repeat split; reflexivity. Qed.
 
 (* ------------------------------------------------------------------------------------- *)
-(* 7. "{:.N}" of a binary64 shows the half-even rounding of its exact value (Spec/Fixed.v) *)
+(* 6. "{:.N}" of a binary64 shows the half-even rounding of its exact value (Spec/Fixed.v) *)
 (* ------------------------------------------------------------------------------------- *)
 Lemma pow5_table_nth : forall i, (i < 25)%nat -> nth_error pow5_table i = Some (5 ^ (16 * Z.of_nat i)).
 Proof.
